@@ -80,7 +80,7 @@ FAMILIES = {
         rule='per-type timeouts (odd multiples of 1/128 s) against handler programs of sleeps (multiples of 1/64 s), nested awaits; serial buses; '
              'non-trivial: a handler is cancelled by a deadline'),
     'C11': dict(
-        gens=[('core', dict(p_raise=0.3), 0.7), ('core', dict(p_raise=0.3, p_parallel=0.7, nb=(2, 3), proglen=(2, 6)), 0.1),
+        gens=[('core', dict(p_raise=0.3), 0.5), ('core', dict(p_raise=0.4, p_rtype=0.6), 0.2), ('core', dict(p_raise=0.3, p_parallel=0.7, nb=(2, 3), proglen=(2, 6)), 0.1),
               ('parraise', dict(), 0.1), ('chain', dict(p_timeout=1.0, p_raise=0.2), 0.1)],
         facets=CORE + ['results', 'signal', 'timeout'],
         rule='raising handlers at every position (parent, child, awaited child, forwarded bus; sync and async, before/after suspension); '
@@ -96,7 +96,8 @@ FAMILIES = {
              'non-trivial: a dispatch is rejected'),
     'C15': dict(
         gens=[('core', dict(p_waitidle=0.35, tasklen=(2, 8), ntasks=(1, 3)), 0.35), ('core', dict(p_waitidle=0.3, p_timeout=0.4), 0.15),
-              ('chain', dict(p_timeout=0.3), 0.15), ('idle', dict(), 0.2), ('backlog', dict(p_waitidle=1.0), 0.1), ('parraise', dict(idle=True), 0.05), ('cycle', dict(), 0.04)],
+              ('chain', dict(p_timeout=0.3), 0.15), ('idle', dict(), 0.2), ('backlog', dict(p_waitidle=1.0), 0.1), ('parraise', dict(idle=True), 0.05), ('cycle', dict(), 0.04),
+              ('core', dict(p_wal=0.8, p_payload=0.8, p_waitidle=0.4, tasklen=(2, 7)), 0.06)],
         facets=['idle', 'unfinished', 'queue', 'rest', 'history', 'results', 'activation', 'harness', 'other', 'runloop', 'recursion', 'timeout'],
         rule='wait_until_idle racing external and nested dispatches at offsets around the 0.1 s poll, after errors, timeouts, rejections, evictions; '
              'non-trivial: a wait_until_idle call overlaps at least one activation'),
@@ -106,7 +107,8 @@ FAMILIES = {
         rule='stop() / run-loop-task cancellation at every control state of the run loop (polling, event in hand, processing, handler mid-flight, '
              'blocked on the lock), backlog sizes 0-6, other buses with awaiting handlers; non-trivial: the stop or cancel arrives while the bus has work'),
     'C17': dict(
-        gens=[('core', dict(p_wal=0.7, p_payload=0.6, p_walfault=0.15, p_forward=0.25, p_parallel=0.3), 1.0)],
+        gens=[('core', dict(p_wal=0.7, p_payload=0.6, p_walfault=0.15, p_forward=0.25, p_parallel=0.3), 0.8),
+              ('core', dict(p_wal=0.8, p_payload=0.4, p_rtype=0.7, p_forward=0.2), 0.2)],
         facets=['wal', 'activation', 'handlers', 'lifecycle', 'harness', 'other', 'results', 'signal'],
         rule='WAL buses with nested, awaited and forwarded events, parallel handlers, payloads (nested containers, unicode, datetimes, big ints), '
              'I/O faults on open/write; non-trivial: at least two WAL lines and one other activation'),
